@@ -35,8 +35,9 @@ SPEC = dict(
              "at Stop every accepted span is forwarded iff kept, everything waiting in tracesToSend is forwarded before Stop "
              "returns, full accounting of every accepted span after Stop, DirectTransmission.Stop dispatches every accepted event "
              "and nothing stays pending, enqueue after Stop = panic (nil map, batchMutex left locked) then block for ever, AddSpan "
-             "after Stop = panic; the full statement is proved for the proposed repair (fixed = true); Agent.healthCheck never "
-             "exits after cancel (proved on the loop model, observed spinning on the real goroutine). Model tied to collect.go, "
+             "after Stop = panic; the full statement is proved for the proposed repair (fixed = true); Agent.healthCheck exits "
+             "at the first cancellation (proved on the loop model of the code since fix 4b2120c, observed gone on the real goroutine; "
+             "a spinning loop is a monitored violation). Model tied to collect.go, "
              "collector_worker.go, direct_transmit.go by replaying every prefix of generated histories on the real components "
              "and comparing every observation, plus a monitor of the property on the implementation's own observations.",
         note="Partial by design: 'exits without panicking or leaving goroutines running' is observed (goroutine profile before Start vs after Stop, "
